@@ -401,7 +401,13 @@ def call_method(ex, st, node, recv, name, args, kwargs):
                 a = ex.unopt(a, st, node)
             if isinstance(recv.elem, TAny) and not isinstance(a, VAny): a = VAny(z3.FreshConst(AnySort, 'item'))
             if isinstance(a, VBool) and isinstance(recv.elem, TInt): a = VInt(z3.If(a.term, 1, 0))
-            return VNone(), VList(z3.Store(recv.arr, recv.n, a.term), recv.n + 1, recv.elem)
+            newarr = z3.Store(recv.arr, recv.n, a.term)
+            if isinstance(recv.elem, (TStr, TBytes)) and not z3.is_int_value(z3.simplify(recv.n)):
+                # definition of join with the empty separator, unfolded at the append: join(xs + [x]) == join(xs) + x
+                e_ = z3.StringVal('')
+                st.assume(JOIN(e_, newarr, recv.n + 1) == z3.Concat(JOIN(e_, recv.arr, recv.n), a.term))
+                st.assume(z3.Implies(recv.n == 0, JOIN(e_, recv.arr, recv.n) == e_))
+            return VNone(), VList(newarr, recv.n + 1, recv.elem)
         if name == 'pop' and not args:
             ex.may_raise(st, 'IndexError', node, recv.n <= 0, recv.n > 0, 'pop from empty')
             return wrap(z3.Select(recv.arr, recv.n - 1), recv.elem), VList(recv.arr, recv.n - 1, recv.elem)
